@@ -31,6 +31,7 @@ class World(object):
         self.d.add_trait("da", DelegatesTo("par", "xa"))           # deferred traits given to the object at run time
         self.d.add_trait("dpa", PrototypedFrom("par", "xpa"))
         self.d2 = (dc.D2Sub if shape == 1 else dc.D2)(par=self.d)
+        self.sx_touched = False
         self.logs = {x: [] for x in ATTRS}
         for x in ATTRS:
             self.d.on_trait_change(self._mk(x), x)
@@ -90,6 +91,10 @@ def run_history(rnd, steps, t):
                 if v != BAD:
                     for tname in TARGETS:
                         setattr(w.p0, tname, v)
+            elif u < 0.12:
+                # a write through an attribute that defers to an UNDECLARED name of a strict delegate
+                op, v, x = "setsx", rnd.choice([1, 2, 3]), "a"
+                w.d.sx = v
             elif u < 0.3:
                 op, v = "setd", rnd.choice([1, 2, 3, BAD])
                 setattr(w.d, x, conc(v))
@@ -116,8 +121,25 @@ def run_history(rnd, steps, t):
         reads, readq = w.reads()
         for xx in ATTRS:
             w.logs[xx].clear()
+        # (no attribute of the strict delegate is READ before the first write through sx: a lookup would resolve - and
+        # cache - the undeclared name in its class)
+        sp = w.d.__dict__.get("spar")
+        leak = 1 if sp is not None and "nope" in sp.__dict__ else 0
+        readsx = -1
+        if op == "setsx" or w.sx_touched:
+            w.sx_touched = True
+            try:
+                w.d.spar.nope
+                leak = 1
+            except Exception:
+                pass
+            try:
+                w.d.sx
+                readsx = 0
+            except Exception:
+                readsx = -1
         out.append({"tid": t, "step": s, "op": op, "x": x, "p": p, "v": v, "exc": exc, "pre": pre, "post": post,
-                    "calls": calls, "reads": reads, "readq": readq, "q": qn})
+                    "calls": calls, "reads": reads, "readq": readq, "q": qn, "sxleak": leak, "readsx": readsx})
     return out
 
 
